@@ -300,8 +300,8 @@ type Select struct {
 	GroupBy  []string
 	Having   Expr
 	OrderBy  []OrderKey
-	Limit    int // -1 absent
-	Offset   int // -1 absent
+	Limit    int  // -1 absent
+	Offset   int  // -1 absent
 	CommaLim bool // LIMIT off, n spelling
 }
 
